@@ -145,6 +145,45 @@ def rule_T3(facts, rep, c):
                            "`%s` renders a 1-tuple as `(x)`, which is not a tuple: the arity-1 case needs a trailing comma" % shape[:50], node.get("sp"))
                 else:
                     rep.ob("C01.T3", "arity1:tuple:" + key, True, "`%s` keeps a trailing comma (valid for every arity)" % shape[:40])
+    # the payload of a tuple variant handed over ready-made: `#variant #fields,` where #fields is itself `( .. )`
+    from lib import binding_let
+    for h in c.user_fns():
+        idx = 0
+        for (node, anc, t) in templates_in(facts, c, h):
+            if not t:
+                continue
+            holes_at = {}
+            for a_ in node.get("args", []):
+                if a_.get("hole") and a_.get("sp"):
+                    ln, col = a_["sp"].rsplit(":", 2)[1:3]
+                    holes_at[(ln, col)] = a_
+
+            def scan(tt):
+                for i_ in range(len(tt) - 1):
+                    x, y = tt[i_], tt[i_ + 1]
+                    if x["t"] == "hole" and y["t"] == "hole" and (i_ + 2 >= len(tt) or (tt[i_ + 2]["t"] == "punct" and tt[i_ + 2]["s"] == ",")):
+                        yield x, y
+                for x in tt:
+                    if x["t"] in ("group", "rep"):
+                        for r_ in scan(x["body"]):
+                            yield r_
+            for x, y in scan(t["tt"]):
+                arg = holes_at.get((str(y.get("line")), str(y.get("col"))))
+                if arg is None:
+                    continue
+                bl = binding_let(h, arg)
+                if bl is None or bl.get("init") is None:
+                    continue
+                prods = [facts.template_at(q.get("sp")) for q, _ in walk(bl["init"]) if q.get("k") == "macro" and q.get("name") == "quote"]
+                prods = [p_ for p_ in prods if p_]
+                if not prods or not all(len(p_["tt"]) == 1 and p_["tt"][0]["t"] == "group" and p_["tt"][0].get("d") == "(" for p_ in prods):
+                    continue
+                idx += 1
+                gs = guards(anc, node)
+                lens = [g_ for g_ in gs if g_[0] in ("if", "else") and re.search(r"len\(\) (Ne|Eq) 1\)?$", g_[1])]
+                rep.ob("C01.T3", "arity1:variant-payload:%s#h%d" % (h["fn"], idx), bool(lens),
+                       "the ready-made payload list is appended under `%s`" % lens[0][1][-40:] if lens else
+                       "`#%s #%s` appends a parenthesised list that was built elsewhere as the payload of a variant without distinguishing arity 1: a 1-tuple `(T,)` becomes the variant `V(T,)` = `V(T)`, which is not the 1-tuple variant `V((T,))`, so serialisation differs" % (x["name"], y["name"]), node.get("sp"))
     rep.floor("C01.T3", "tuple-like token lists", n, 9)
 
 
